@@ -1,6 +1,8 @@
 package server
 
 import (
+	"reflect"
+
 	"github.com/Tnze/go-mc/chat"
 	"github.com/Tnze/go-mc/data/packetid"
 	"github.com/Tnze/go-mc/net"
@@ -16,18 +18,40 @@ type Configurations struct {
 	Registries registry.Registries
 }
 
+// AcceptConfig sends every registry in its own packet, finishes the configuration and waits for the
+// client's acknowledgement.
 func (c *Configurations) AcceptConfig(conn *net.Conn) error {
+	registries := reflect.ValueOf(&c.Registries).Elem()
+	for i := 0; i < registries.NumField(); i++ {
+		id, ok := registries.Type().Field(i).Tag.Lookup("registry")
+		if !ok {
+			continue
+		}
+		err := conn.WritePacket(pk.Marshal(
+			packetid.ClientboundConfigRegistryData,
+			pk.Identifier(id),
+			registries.Field(i).Addr().Interface().(pk.FieldEncoder),
+		))
+		if err != nil {
+			return err
+		}
+	}
 	err := conn.WritePacket(pk.Marshal(
-		packetid.ClientboundConfigRegistryData,
-		pk.NBT(c.Registries),
+		packetid.ClientboundConfigFinishConfiguration,
 	))
 	if err != nil {
 		return err
 	}
-	err = conn.WritePacket(pk.Marshal(
-		packetid.ClientboundConfigFinishConfiguration,
-	))
-	return err
+	for {
+		var p pk.Packet
+		err = conn.ReadPacket(&p)
+		if err != nil {
+			return err
+		}
+		if packetid.ServerboundPacketID(p.ID) == packetid.ServerboundConfigFinishConfiguration {
+			return nil
+		}
+	}
 }
 
 type ConfigFailErr struct {
